@@ -352,6 +352,109 @@ def build_diff(op):
     return b
 
 
+# ------------------------------------------------------------------------------------------------ h4: account reads (db_basic) vs the commit
+def basic_stubs():
+    st = stubs()
+
+    def basic_ref(tr, c):
+        a = tr.as_scalar(c.args[1]).expr
+        d = c.dest()
+        n = d.node
+        ok = n.variants[n.vindex("Ok")][1].fields[0]        # Option<AccountInfo>
+        tr.emit(f"__CPROVER_assume({a} < {A}); db_reads++; {tr.lv(Loc(n.discr, d.idxs))} = {n.vindex('Ok')};")
+        info = ok.variants[ok.vindex("Some")][1].fields[0]
+        tr.emit(f"{tr.lv(Loc(ok.discr, d.idxs))} = db_exists[{a}] ? {ok.vindex('Some')} : {ok.vindex('None')};")
+        tr.emit(f"{tr.lv(Loc(info.f('balance'), d.idxs))} = db_balance[{a}]; {tr.lv(Loc(info.f('nonce'), d.idxs))} = db_nonce[{a}]; "
+                f"{tr.lv(Loc(info.f('code_hash'), d.idxs))} = db_code_hash[{a}];")
+        code = info.f("code")
+        tr.emit(f"{tr.lv(Loc(code.discr, d.idxs))} = {code.vindex('None')};")
+    st["<DB as DatabaseRef>::basic_ref"] = basic_ref
+    return st
+
+
+def basic_cfg(inject=False):
+    c = cfg(inject)
+    c["stubs"] = basic_stubs()
+    c["enum_consts"] = dict(ST)          # revm-database's AccountStatus is modelled as its discriminant byte (declaration order, see ST)
+    return c
+
+
+def build_basic(mode):
+    """db_basic(a) by a speculative worker vs { first load of a by the executing worker ; ordered commit of a transaction on a }"""
+    def b(tr):
+        H = hz.Harness(tr, "c10_basic_" + mode)
+        conc = mode != "seq"
+        H.cvar("db_slot", WIDE, dims=[A, SL], shared=conc); H.cvar("db_reads", "unsigned char", shared=conc)
+        for nm, ct in (("db_exists", "_Bool"), ("db_balance", WIDE), ("db_nonce", WIDE), ("db_code_hash", WIDE)):
+            H.cvar(nm, ct, dims=[A], shared=conc)
+        H.c("db_reads = 0;")
+        for a in range(A):
+            H.c(f"db_exists[{a}] = nondet_bool(); db_balance[{a}] = nondet_uchar(); db_nonce[{a}] = nondet_uchar(); db_code_hash[{a}] = nondet_uchar(); __CPROVER_assume(db_code_hash[{a}] < 2);")
+            for s in range(SL):
+                H.c(f"db_slot[{a}][{s}] = nondet_uchar();")
+        k = K(H, tr, shared=conc)
+        k.init(0)
+        # the account may also be absent from the cache (nobody read it yet)
+        pres = H.lv(k.accs, "data.present", [0])
+        H.c(f"{pres} = nondet_bool();")
+        for f in ("balance", "nonce", "code_hash"):
+            H.c(f"{H.lv(k.accs, 'data.val.account.Some.0.' + f, [0])} = nondet_uchar();")
+        H.assume(f"{H.lv(k.accs, 'data.val.account.Some.0.code_hash', [0])} < 2")
+        H.c(f"{H.lv(k.accs, 'data.val.account.Some.0.code.d', [0])} = 0;")
+        acc = (H.shared if conc else H.local)("jacc", "Account")
+        havoc_account(H, acc)
+        # what the state serves for address 0 before anything happens: the cached account, else the backing account (empty accounts
+        # normalised to the default account, as revm's State::load_cache_account does)
+        for nm, ct in (("b_some", "_Bool"), ("b_bal", WIDE), ("b_nonce", WIDE), ("b_ch", WIDE), ("e_some", "_Bool"), ("e_bal", WIDE), ("e_nonce", WIDE), ("e_ch", WIDE)):
+            H.cvar(nm, ct, shared=conc)
+        cs = lambda f: H.lv(k.accs, "data.val.account.Some.0." + f, [0])
+        db_empty = "((db_code_hash[0] == 1 || db_code_hash[0] == 0) && db_balance[0] == 0 && db_nonce[0] == 0)"
+        H.c(f"if ({pres}) {{ b_some = {H.lv(k.accs, 'data.val.account.d', [0])} != 0; b_bal = {cs('balance')}; b_nonce = {cs('nonce')}; b_ch = {cs('code_hash')}; }} "
+            f"else {{ b_some = db_exists[0]; b_bal = {db_empty} ? 0 : db_balance[0]; b_nonce = {db_empty} ? 0 : db_nonce[0]; b_ch = {db_empty} ? 1 : db_code_hash[0]; }}")
+        st = H.lv(acc, "status")
+        ch = H.lv(acc, "info.code_hash")
+        empty = f"(({ch} == 1 || {ch} == 0) && {H.lv(acc, 'info.balance')} == 0 && {H.lv(acc, 'info.nonce')} == 0)"
+        touched, sd, cr = f"(({st} & 4) != 0)", f"(({st} & 2) != 0)", f"(({st} & 1) != 0)"
+        H.c(f"if (!{touched}) {{ e_some = b_some; e_bal = b_bal; e_nonce = b_nonce; e_ch = b_ch; }} else if ({sd} || (!{cr} && {empty})) {{ e_some = 0; e_bal = 0; e_nonce = 0; e_ch = 0; }} "
+            f"else {{ e_some = 1; e_bal = {H.lv(acc, 'info.balance')}; e_nonce = {H.lv(acc, 'info.nonce')}; e_ch = {ch}; }}")
+        mk = H.shared if conc else H.local
+        r1 = mk("r1", "Result<Option<AccountInfo>, DBError>")
+        rl = mk("rl", "Result<Option<AccountInfo>, DBError>")
+        tn = mk("tn", "Option<TransitionAccount>")
+
+        def reader():
+            H.call("ParallelStateView::db_basic", [VLoc(Loc(k.view, [])), H.val("0", "unsigned char")], r1)
+
+        def commit():
+            # the transaction being committed was executed by a worker that loaded the account first (get_account_mut relies on it)
+            H.call("ParallelStateView::db_basic", [VLoc(Loc(k.view, [])), H.val("0", "unsigned char")], rl)
+            H.call("ParallelCacheState::apply_account_state", [H.ref(k.cache), H.val("0", "unsigned char"), VLoc(Loc(acc, []))], tn)
+        if mode == "seq":
+            H.cvar("order", "_Bool", shared=False)
+            H.c("order = nondet_bool(); if (order) {")
+            reader()
+            H.c("}")
+            commit()
+        else:
+            first, second = (reader, commit) if mode == "reader_commit" else (commit, reader)
+            t1 = H.thread("A"); H.enter(t1)
+            first()
+            t2 = H.thread("B"); H.enter(t2)
+            second()
+            H.post()
+        r2 = H.local("r2", "Result<Option<AccountInfo>, DBError>")
+        H.call("ParallelStateView::db_basic", [VLoc(Loc(k.view, [])), H.val("0", "unsigned char")], r2)
+        some = f"({H.lv(r2, 'Ok.0.d')} != 0)"
+        H.assert_(f"{H.lv(r2, 'd')} == {H.variant(r2, '', 'Ok')} && {some} == e_some", "after the commit the account is present / absent exactly as revm's State serves it (gone after selfdestruct / empty-touch, else the committed account; untouched: as before)")
+        for f, e in (("balance", "e_bal"), ("nonce", "e_nonce"), ("code_hash", "e_ch")):
+            H.assert_(f"!{some} || !e_some || {H.lv(r2, 'Ok.0.Some.0.' + f)} == {e}", f"after the commit the state serves the committed {f} of the account -- whatever a concurrent cache-filling account read did")
+        H.cover(f"e_some && b_some && e_bal != b_bal && {touched}", "an existing account changed by the commit")
+        H.cover("db_reads >= 2" if conc else "db_reads >= 1", "cache misses went to the backing store")
+        H.cover("!e_some && b_some", "account removed by the commit")
+        return H
+    return b
+
+
 def specs(tier):
     out = [
         Spec("h1_read_then_commit_seq", build("seq"), cfg=cfg(), unwind=5, timeout=2700,
@@ -363,6 +466,17 @@ def specs(tier):
         Spec("h2_commit_vs_reader", build("commit_reader"), cfg=cfg(inject=True), unwind=5, timeout=3600,
              desc="the commit with the worker's read running atomically at any conflicting visible operation of the commit",
              bounds={"addresses": A, "slots": SL, "threads": 2, "context_switches": 2}),
+    ]
+    out += [
+        Spec("h4_basic_then_commit_seq", build_basic("seq"), cfg=basic_cfg(), unwind=5, timeout=2700,
+             desc="sequential: optional cache-filling db_basic, then first load + commit of any journal account, then db_basic again (account cached or not, any backing account)",
+             bounds={"addresses": A, "value_bits": 8}),
+        Spec("h4_basic_reader_vs_commit", build_basic("reader_commit"), cfg=basic_cfg(inject=True), unwind=5, timeout=3600,
+             desc="db_basic(a) by a speculative worker with {first load of a; ordered commit of a transaction on a} running atomically at any conflicting visible operation of the read",
+             bounds={"addresses": A, "threads": 2, "context_switches": 2}),
+        Spec("h4_basic_commit_vs_reader", build_basic("commit_reader"), cfg=basic_cfg(inject=True), unwind=5, timeout=3600,
+             desc="{first load; commit} with the worker's db_basic running atomically at any conflicting visible operation",
+             bounds={"addresses": A, "threads": 2, "context_switches": 2}),
     ]
     for op in OPS:
         out.append(Spec(f"h3_diff_{op}", build_diff(op), cfg=diff_cfg(), unwind=5, timeout=2700,
